@@ -16,7 +16,7 @@ use crate::props::c10::rank;
 use crate::runner::{CheckResult, Env, Job, Outcome, PropJob};
 use crate::util::{canon, permutation, rc, to_ascii, Seq};
 
-pub const RULE: &str = "case = read set in which reads and their reverse complements both occur, p-mer type P (2..8 bases), k in p+1..p+30 (bounded by the piece container), permutation in {default (None), generated permutation of the 4^p p-mers}, rc mode on/off, piece container in {Lmer1, Lmer2, Lmer3, DnaString, DnaBytes}; oracle: reads shorter than k give no pieces; pieces re-tile the read in order with k-1 overlaps and each piece is the exact substring; piece extensions are exactly the flanking bases (none at read ends); bucket < 4^p; the map (canonical k-mer in rc mode / k-mer otherwise) -> bucket over ALL occurrences in all pieces of all reads is a function; the bucket's p-mer (or its reverse complement) occurs inside every k-mer of the piece. Non-trivial = some k-mer occurs in >= 2 different pieces (in rc mode: in both orientations).";
+pub const RULE: &str = "case = read set in which reads and their reverse complements both occur, p-mer type P (2..8 bases), k in p+1..p+30 (bounded by the piece container), permutation in {default (None), generated permutation of the 4^p p-mers}, rc mode on/off, piece container in {Lmer1, Lmer2, Lmer3, DnaString, DnaBytes}; oracle: reads shorter than k give no pieces; pieces re-tile the read in order with k-1 overlaps and each piece is the exact substring; piece extensions are exactly the flanking bases (none at read ends); bucket < 4^p; the map (canonical k-mer in rc mode / k-mer otherwise) -> bucket over ALL occurrences in all pieces of all reads is a function; the bucket's p-mer (or its reverse complement) occurs inside every k-mer of the piece; msp_sequence, the deprecated simple_scan and Scanner::scan + MspIntervalP::bucket agree on intervals and bucket ids. Non-trivial = some k-mer occurs in >= 2 different pieces (in rc mode: in both orientations).";
 pub const TECHNIQUE: &str = "seeded proptest; functional-dependency check k-mer -> bucket over all occurrences, substring/flank equality against the plain read";
 
 #[derive(Debug, Clone, Serialize, Deserialize)]
